@@ -60,6 +60,11 @@ pub fn base64(data: &[u8]) -> String {
     out
 }
 
+/// base64url with padding (the alphabet dropshot's page tokens use).
+pub fn base64_url(data: &[u8]) -> String {
+    base64(data).replace('+', "-").replace('/', "_")
+}
+
 pub fn ws_accept(key: &[u8]) -> String {
     let mut d = key.to_vec();
     d.extend_from_slice(b"258EAFA5-E914-47DA-95CA-C5AB0DC85B11");
